@@ -48,6 +48,11 @@ type descriptor struct {
 	// is delivered once, first thing, while the host waits. The exception
 	// path's token counts for completion like any other.
 	Boundary bool `json:"boundary,omitempty"`
+	// SplitCtx: the instance is started with a context that does not descend
+	// from its construction context; the action "cancelBuild" ends the
+	// construction context. The instance lives on the context it was started
+	// with: completion is reported exactly as before.
+	SplitCtx bool `json:"splitCtx,omitempty"`
 }
 
 func build(d descriptor) *gen.Graph {
@@ -171,7 +176,7 @@ func runCase(d descriptor) *result {
 		perturb.Install(d.Perturb, 50, map[string]bool{"process.startwith": true, "tracer.send": true})
 		defer perturb.Remove()
 	}
-	in, err := drive.New(r.XML, drive.Options{})
+	in, err := drive.New(r.XML, drive.Options{SplitCtx: d.SplitCtx})
 	if err != nil {
 		r.Symptom, r.Detail = "construct", err.Error()
 		return r
@@ -326,6 +331,12 @@ func runCase(d descriptor) *result {
 				return fail("requests", fmt.Sprintf("after the boundary event: requests %v want %v", got, obs.Requests), nil)
 			}
 			r.History = append(r.History, "boundary event delivered")
+		case "cancelBuild":
+			if !d.SplitCtx {
+				continue
+			}
+			in.CancelBuild()
+			r.History = append(r.History, "construction context cancelled")
 		case "wait":
 			newWaiter()
 			lastWasWait = true
@@ -432,8 +443,13 @@ func draw(rt *rapid.T) descriptor {
 		d.Actions = append(d.Actions, action{Kind: "event"})
 	}
 	na := rapid.IntRange(0, 8).Draw(rt, "nActions")
+	kinds := []string{"answer", "answer", "wait", "waitExpire", "waitMany", "rewait"}
+	if !d.SubDead && rapid.IntRange(0, 3).Draw(rt, "splitCtx") == 0 {
+		d.SplitCtx = true
+		kinds = append(kinds, "cancelBuild")
+	}
 	for i := 0; i < na; i++ {
-		d.Actions = append(d.Actions, action{Kind: rapid.SampledFrom([]string{"answer", "answer", "wait", "waitExpire", "waitMany", "rewait"}).Draw(rt, "kind"), Arg: rapid.IntRange(0, 5).Draw(rt, "arg")})
+		d.Actions = append(d.Actions, action{Kind: rapid.SampledFrom(kinds).Draw(rt, "kind"), Arg: rapid.IntRange(0, 5).Draw(rt, "arg")})
 	}
 	return d
 }
@@ -485,6 +501,9 @@ func TestC02Waiters(t *testing.T) {
 		}
 		if d.Boundary {
 			cls = append(cls, "boundaryPathToken")
+		}
+		if d.SplitCtx {
+			cls = append(cls, "startContextDiffersFromConstructionContext")
 		}
 		nt := (r.Waits >= 2 || r.Rewait || d.Starts >= 2) && r.AnsBetween
 		rec.Case("TestC02Waiters", hash, nt, cls, map[string]any{"case": d, "history": r.History})
